@@ -256,6 +256,31 @@ def ldrive(variant, lines, timeout=900):
     return p, [l.split("\t") for l in outl]
 
 
+def run_memcheck(seed, timeout=1800):
+    """Run vlib.memcheck_job (a small end-to-end workload over v1/v2c/v3 noPriv/DES/AES) under valgrind
+    memcheck with the release .so.  Returns dict(exchanges, reports=[(kind, text)]): only report blocks
+    with a frame in _fast.so count (CPython's own allocator tricks produce a few internal ones)."""
+    import re
+    stage = build.stage_python("rel")
+    env = build.python_env("rel", stage)
+    env["PYTHONMALLOC"] = "malloc"
+    try:
+        p = subprocess.run(["valgrind", "--error-exitcode=0", "--num-callers=30", build.REAL_PY, "-m", "vlib.memcheck_job", str(seed)],
+                           env=env, cwd=VERIF, stdout=subprocess.PIPE, stderr=subprocess.PIPE, text=True, timeout=timeout)
+    except subprocess.TimeoutExpired:
+        return {"exchanges": 0, "reports": [], "timeout": True}
+    ex = len([l for l in p.stdout.split("\n") if l.startswith(("exchange", "oversize", "after"))])
+    done = "done" in p.stdout
+    reps = []
+    for blk in re.split(r"\n==\d+== \n", p.stderr):
+        if "_fast.so" not in blk and "gufo_snmp" not in blk:
+            continue
+        m = re.search(r"==\d+== ((Syscall param|Conditional jump|Use of uninitialised|Invalid (read|write))[^\n]*)", blk)
+        if m:
+            reps.append((m.group(1)[:80], blk[-1500:]))
+    return {"exchanges": ex, "completed": done, "reports": reps, "valgrind_blocks_total": len(re.findall(r"==\d+== \n", p.stderr))}
+
+
 def run_fuzz(target, runs, seed, seeds=(), max_len=4080, nproc=None, timeout=3000):
     """Build and run a cargo-fuzz target (libFuzzer + ASan) in nproc parallel processes with a
     bounded number of runs each. Returns dict(execs, crashes=[(signature, artifact hex, stderr tail)])."""
